@@ -52,6 +52,22 @@ pub mod openssl {
         #[derive(Debug)]
         pub struct HandshakeError { pub x: u8 }
         pub struct SslStream { pub x: u8 }
+        // what a connection thread may ask about a finished handshake: every answer is the peer's choice
+        impl SslStream {
+            #[verifier::external_body] pub fn ssl(&self) -> &SslRef { unimplemented!() }
+            #[verifier::external_body] pub fn get_ref(&self) -> &crate::vnet::Stream { unimplemented!() }
+            #[verifier::external_body] pub fn shutdown(&mut self) -> Result<u8, HandshakeError> { unimplemented!() }
+        }
+        impl SslRef {
+            // None when the ClientHello carried no ALPN extension (the selection callback is not run then)
+            #[verifier::external_body] pub fn selected_alpn_protocol(&self) -> Option<&[u8]> { unimplemented!() }
+            #[verifier::external_body] pub fn version_str(&self) -> &'static str { unimplemented!() }
+            // None when the ClientHello carried no SNI extension
+            #[verifier::external_body] pub fn servername(&self, t: NameType) -> Option<&str> { unimplemented!() }
+            #[verifier::external_body] pub fn state_string_long(&self) -> &'static str { unimplemented!() }
+        }
+        pub struct NameType { pub x: u8 }
+        impl NameType { pub const HOST_NAME: NameType = NameType { x: 0 }; }
         // the ALPN protocol list in wire format: length-prefixed names
         pub open spec fn acme_tls_1_wire() -> Seq<u8> {
             seq![10u8, 0x61, 0x63, 0x6d, 0x65, 0x2d, 0x74, 0x6c, 0x73, 0x2f, 0x31]   // "\\x0aacme-tls/1"
@@ -108,6 +124,14 @@ pub mod vnet {
     #[derive(Debug)]
     pub struct IoError { pub x: u8 }
     pub struct Stream { pub x: u8 }
+    pub struct SocketAddr { pub x: u8 }
+    impl Stream {
+        // fails once the peer has gone away
+        #[verifier::external_body] pub fn peer_addr(&self) -> Result<SocketAddr, IoError> { unimplemented!() }
+        #[verifier::external_body] pub fn local_addr(&self) -> Result<SocketAddr, IoError> { unimplemented!() }
+        #[verifier::external_body] pub fn set_read_timeout(&self, d: Option<std::time::Duration>) -> Result<(), IoError> { unimplemented!() }
+        #[verifier::external_body] pub fn set_write_timeout(&self, d: Option<std::time::Duration>) -> Result<(), IoError> { unimplemented!() }
+    }
     pub struct TcpListener { pub x: u8 }
     pub struct UnixListener { pub x: u8 }
     // `incoming()` is modelled as an arbitrary finite sequence of connection attempts (every finite prefix of the real, endless one)
